@@ -50,7 +50,10 @@ def prove_forward(src_root, kind, ex: Explorer):
         n = ctx.choose(4, 'children')
         has_parent = ctx.choose(2, 'parent') == 1
         own = ctx.choose(2, 'own-search') == 1
-        t = Tree(it, ctx, parent=has_parent, n_children=n)
+        # the tree outlives the server session (the server connection may be lost while parent and children stay connected): without a
+        # session there is no own name to compare with, every search is somebody else's
+        logged_in = own or ctx.choose(2, 'logged-in') == 1
+        t = Tree(it, ctx, parent=has_parent, n_children=n, session=logged_in)
         asker = t.me if own else sstr(ctx, 'asker')
         if not own:
             ctx.assume(asker.t != t.me.t)
@@ -346,9 +349,18 @@ def prove_tree_relies(src_root, ex: Explorer):
     from contracts import C13
     C13.prove_check_new_parent(src_root, ex)
     C13.prove_peer_lookup(src_root, ex)
+    # "exactly once": every frame is delivered to the handlers once (the reader loop contract of C02); "to the asker": the address that
+    # is looked up for the reply connection is the asker's (C11.peer-address.*)
+    from contracts import C02, C11
+    C02.prove_reader_loop(src_root, ex)
+    C11.prove_address_and_state(src_root, ex)
     for ob in ex.obligations:
         if ob.name.startswith('C13.'):
             ob.name = 'C14.tree.' + ob.name[4:]
+        elif ob.name.startswith('C02.'):
+            ob.name = 'C14.delivered-once.' + ob.name[4:]
+        elif ob.name.startswith('C11.'):
+            ob.name = 'C14.reply-to-asker.' + ob.name[4:]
 
 
 def prove_reply_connection(src_root, ex: Explorer):
